@@ -100,6 +100,8 @@ type World struct {
 	pools     *pools
 	poolStats poolStats
 
+	real *realNet // calibration world: real net/http instead of the stub
+
 	buildingClient bool
 	faultAssigned  bool
 	recoverErr     func(o *CallObs, v any) error
@@ -109,12 +111,30 @@ type World struct {
 //go:noinline
 func stepsNow(s *core.Sched) int { return s.Steps }
 
-func NewWorld(s *core.Sched, sc *Scenario) *World {
+func NewWorld(s *core.Sched, sc *Scenario) *World { return newWorld(s, sc, false) }
+
+func newWorld(s *core.Sched, sc *Scenario, real bool) *World {
 	w := &World{S: s, Sc: sc, Net: &simhttp.Net{S: s}, byID: map[string]*CallObs{}, clients: map[string]*connect.Client[Msg, Msg]{}}
 	w.pools = newPools(sc.PoolFIFO)
 	setPools(w.pools)
 	for i := range sc.Handlers {
 		w.handlers = append(w.handlers, w.buildHandlers(i, &sc.Handlers[i]))
+	}
+	if real {
+		mux := http.NewServeMux()
+		for i := range w.handlers {
+			for k := KUnary; k <= KBidi; k++ {
+				h := w.handlers[i][k]
+				mux.Handle(procName(i, k), http.HandlerFunc(func(rw http.ResponseWriter, r *http.Request) {
+					// make the call's observation record reachable from the server context
+					if o := w.byID[r.Header.Get(callHeader)]; o != nil {
+						r = r.WithContext(context.WithValue(r.Context(), obsKey{}, o))
+					}
+					h.ServeHTTP(rw, r)
+				}))
+			}
+		}
+		w.real = newRealNet(mux)
 	}
 	for _, p := range sc.Calls {
 		o := &CallObs{Plan: p, CancelStep: -1}
@@ -243,7 +263,7 @@ func (w *World) obsFromCtx(ctx context.Context) *CallObs {
 }
 
 func (w *World) client(p *CallPlan) *connect.Client[Msg, Msg] {
-	key := fmt.Sprintf("%d/%d/%d", p.Client, p.Handler, p.Kind)
+	key := fmt.Sprintf("%d/%d/%d/%v", p.Client, p.Handler, p.Kind, w.real != nil && p.K.HTTP2)
 	if c, ok := w.clients[key]; ok {
 		return c
 	}
@@ -273,7 +293,11 @@ func (w *World) client(p *CallPlan) *connect.Client[Msg, Msg] {
 	if cfg.ReadMax > 0 {
 		opts = append(opts, connect.WithReadMaxBytes(cfg.ReadMax))
 	}
-	c := connect.NewClient[Msg, Msg](w.Net, "http://sim.test"+procName(p.Handler, p.Kind), opts...)
+	var hc connect.HTTPClient = w.Net
+	if w.real != nil {
+		hc = &realClient{n: w.real, h2: p.K.HTTP2}
+	}
+	c := connect.NewClient[Msg, Msg](hc, "http://sim.test"+procName(p.Handler, p.Kind), opts...)
 	w.clients[key] = c
 	return c
 }
@@ -909,3 +933,5 @@ func (j *joinPred) Ready(time.Time) bool { return j.t.Finished() }
 //go:norace
 //go:noinline
 func (j *joinPred) Param(*core.Tape) int { return 0 }
+
+func (j *joinPred) ReadyNow() bool { return j.t.Finished() }
